@@ -653,6 +653,34 @@ def nobb_(t):
     return nobb(t)
 
 
+def _verdict_from_first(ctx, bi, first_place):
+    """a dominating branch of block bi is taken on the discriminant of a value returned by a call
+    (other than len) whose receiver is the first level"""
+    from expr import guards
+    def has_call_on(t):
+        if not isinstance(t, tuple):
+            return False
+        if t and t[0] == "call" and len(t) >= 3 and not (isinstance(t[1], tuple) and t[1][-1] in ("len", "is_empty")):
+            if _mentions(t[2:], first_place):
+                return True
+        return any(has_call_on(x) for x in t)
+    for g in guards(ctx, bi):
+        cond = g[0]
+        if isinstance(cond, tuple) and cond and cond[0] == "discr" and has_call_on(cond):
+            return True
+    return False
+
+
+def _mentions(t, place):
+    if t == place:
+        return True
+    if isinstance(t, tuple):
+        if len(t) == 4 and t[0] == "place" and place[0] == "place" and t[:3] == place[:3] and t[3][:len(place[3])] == place[3]:
+            return True
+        return any(_mentions(x, place) for x in t)
+    return False
+
+
 def r_concat(F, R, cat=None):
     cat = cat or Catalogue(F)
     tl = two_level(F, cat)
@@ -690,6 +718,14 @@ def r_concat(F, R, cat=None):
                             x, y = y, x
                         if op == "Ge" and lin_eq(nlin(x), nlin(param)) and is_len_of(nobb_(y), field_place(ib, first)):
                             ge = True
+                if not ge and (_verdict_from_first(ctx, bi, field_place(ib, first)) or
+                               any("Stride" in p_ and p_.split("::")[-1] not in ("index", "len") for p_ in ib.d.get("inlined", []))):
+                    # the branch is taken on the Option an unmodelled lookup of the first level
+                    # returned (`match self.first.get(i) { None => self.second.index(i - len) }`):
+                    # whether None means exactly i >= len is that helper's contract -- undecided
+                    R.undecided_site("R-CONCAT", ib.label(), "%s is consulted on the outcome of a lookup helper of %s "
+                                     "the rule has no model for" % (second, first))
+                    continue
                 R.check("R-CONCAT", ib.label(), ge, construct="%s consulted only for i >= %s.len()" % (second, first),
                         where="%s:%s" % (ib.file, t["line"]),
                         detail="dominating fact i >= %s.len()" % first if ge else
